@@ -147,6 +147,15 @@ def gen_random_case(rnd, spec):
         gen["payloads"].append(b)
         if b["when"] == "running":
             script.append(["adopt", b["id"]])
+    if not meta_mode and rnd.random() < 0.2:
+        # trio bystanders that keep calling into the asyncio runner: one of them is usually inside execute() when the failure comes
+        for i in range(rnd.randint(1, 2)):
+            gen["payloads"].append({"id": "xs%d" % i, "flavour": "asyncio", "executed": True, "cleanup": {"kind": "none"},
+                                    "program": [["sleep", rnd.choice([0.01, 0.03])], ["return", "none"]]})
+            gen["payloads"].append({"id": "cross%d" % i, "flavour": "trio", "cleanup": {"kind": "none"},
+                                    "program": [["sleep", 0.01], ["exec_loop", "xs%d" % i, 300, 0.0]]})
+            script.append(["adopt", "cross%d" % i])
+        gen.setdefault("tags", []).append("cross")
     nfail = rnd.choice([1, 2, 2, 3])
     fails = []
     delayed = rnd.random() < 0.8
@@ -246,6 +255,8 @@ def judge(case, run, result):
             result.count("scenarios_without_observed_failure")
         return []
     result.count("scenarios_with_failure")
+    if "cross" in case["generations"][g].get("tags", []) and run.of("call", gen=g, op="execute"):
+        result.count("failures_beside_trio_payloads_calling_into_asyncio")
     if case["meta"].get("meta_runner"):
         result.count("scenarios_driving_metarunner_directly")
     result.count("failures_observed", len(fails))
@@ -321,7 +332,7 @@ def run_shard(spec):
 
 def finish(total, tier):
     need = ["scenarios_with_failure", "scenarios_driving_metarunner_directly", "reruns_of_the_same_runner", "strong_clause_checked", "base_clause_checked", "matched_exception", "matched_return", "control_scenarios",
-            "failures_while_a_shutdown_request_was_pending"]
+            "failures_while_a_shutdown_request_was_pending", "failures_beside_trio_payloads_calling_into_asyncio"]
     need += ["reg_" + r for r in REGISTRATIONS] + ["flavour_" + f for f in common.FLAVOURS]
     for name in need:
         if not total.counters.get(name) and not total.violations:
